@@ -398,8 +398,7 @@ def stepIface (cfg : Cfg) (s : State) (t : Tid) : Option (State × List Ev) :=
     if s.pOwner = none then
       if t ∈ s.pause then
         some (setPc { s with pOwner := some t, pause := s.pause.filter (· ≠ t),
-                             paused := if cfg.waitPred then s.paused.filter (· ≠ t)
-                                       else s.paused } t IPc.cNtfP,
+                             paused := s.paused.filter (· ≠ t) } t IPc.cNtfP,
               [Ev.acq LockName.p])
       else some (setPc { s with pOwner := some t } t (IPc.cRelP true), [Ev.acq LockName.p])
     else none
